@@ -232,7 +232,9 @@ Definition check_1405 (fs : list field) : verdict :=
   | Some ((o, p, sd, oc), dump) =>
     let d := Z.to_nat sd in
     let spec := ser_service (elab true true d p o) in
-    if oc =? 2 then (if field_negative_id p then VKnown 1405 else VBad 2 [])
+    (* a negative field id makes the parse panic (an error after the proposed patch): finding 1405 *)
+    if field_negative_id p && negb (oc =? 0) then VKnown 1405
+    else if oc =? 2 then VBad 2 []
     else
       let impl := if oc =? 0 then dump else [FZ 0] in
       if list_eqb field_eqb impl spec then VOk
